@@ -12,6 +12,51 @@ import (
 // named by the described address of the mutex ("$0.flowMu"). Lock/RLock add,
 // Unlock/RUnlock remove; a deferred Unlock keeps the lock until the exit.
 func lockset(fn *ssa.Function) map[ssa.Instruction]map[string]bool {
+	return locksetDeep(fn, 0)
+}
+
+// locksetDeep also covers the instructions of helpers that are new with respect to the reference tree and
+// are reached from fn: a called helper runs with the caller's locks (a `go` or `defer` one does not).
+func locksetDeep(fn *ssa.Function, depth int) map[ssa.Instruction]map[string]bool {
+	rec := locksetOf(fn)
+	if !haveReference || depth > 3 {
+		return rec
+	}
+	for _, b := range fn.Blocks {
+		for _, ins := range b.Instrs {
+			c, ok := ins.(ssa.CallInstruction)
+			if !ok {
+				continue
+			}
+			g := staticCallee(c.Common())
+			if g == nil || !isNewHelper(g) || g == fn {
+				continue
+			}
+			_, isCall := ins.(*ssa.Call)
+			for _, h := range withClosures(g) {
+				sub := locksetDeep(h, depth+1)
+				for k, v := range sub {
+					if _, dup := rec[k]; dup {
+						continue
+					}
+					m := map[string]bool{}
+					for l := range v {
+						m[l] = true
+					}
+					if isCall && h == g {
+						for l := range rec[ins] {
+							m[l] = true // held by the caller around the call (named in the caller's terms)
+						}
+					}
+					rec[k] = m
+				}
+			}
+		}
+	}
+	return rec
+}
+
+func locksetOf(fn *ssa.Function) map[ssa.Instruction]map[string]bool {
 	type set = map[string]bool
 	in := map[*ssa.BasicBlock]set{}
 	copySet := func(s set) set {
